@@ -701,8 +701,8 @@ func init() {
 		want := func(id string) bool { return only == "" || only == id }
 
 		// ---- phase 1 (parallel, epoch constant): lucky histories, ntimed histories with explicit Reset()
-		nLucky := r.Pick(8700, 145000)
-		nNt := r.Pick(8000, 150000)
+		nLucky := r.Pick(8700, 1200000)
+		nNt := r.Pick(8000, 1200000)
 		const chunk = 50
 		type task struct {
 			kind string
@@ -755,7 +755,7 @@ func init() {
 		// ---- phase 2 (sequential, the epoch is process-global): epoch changes mixed with Reset()
 		cls := c17Classes{}
 		var evals, hist int64
-		nEp := r.Pick(4000, 60000)
+		nEp := r.Pick(4000, 400000)
 		for i := 0; i < nEp; i++ {
 			id := fmt.Sprintf("E%d", i)
 			if !want(id) {
@@ -775,7 +775,7 @@ func init() {
 			}
 		}
 		// ---- phase 3 (sequential): one event at every position of short histories
-		nPos := r.Pick(1000, 12000)
+		nPos := r.Pick(1000, 100000)
 		for i := 0; i < nPos; i++ {
 			rng := r.Rng(fmt.Sprintf("c17/P%d", i))
 			l := 1 + rng.IntN(10)
